@@ -67,6 +67,17 @@ inductive Admissible (pkg : Str) (b : Bundle) : Edit → Prop
         ∀ tn ∈ topicNodes t, ∀ tm ∈ tn.msgs, ∀ x ∈ topicDeepExportNames tn tm rest prop,
           x ∉ pkgExportNames p) :
       Admissible pkg b (.appendField fi (.el i :: topicStep k m :: rest) prop)
+  /-- an option at the end of a nested / inline enum at any depth below a top-level object / oneof -/
+  | optionDeep (fi i : Nat) (rest : List PStep) (o : Str)
+      (hk : ∀ p path imports elems decl, b.find pkg = some p →
+        p.files[fi]? = some (.j5s path imports elems decl) → ∃ io d, elems[i]? = some (declElem io d)) :
+      Admissible pkg b (.appendOption fi (.el i :: rest) o)
+  /-- an option at the end of an inline enum below a request / response -/
+  | optionMethodDeep (fi i m : Nat) (rq : Bool) (rest : List PStep) (o : Str) :
+      Admissible pkg b (.appendOption fi (.el i :: .method m :: reqStep rq :: rest) o)
+  /-- an option at the end of an inline enum below a topic message -/
+  | optionTopicDeep (fi i k m : Nat) (rest : List PStep) (o : Str) :
+      Admissible pkg b (.appendOption fi (.el i :: topicStep k m :: rest) o)
   /-- an option at the end of a top-level enum (referred to or not) -/
   | option (fi i : Nat) (o : Str) : Admissible pkg b (.appendOption fi [.el i] o)
 
